@@ -28,7 +28,7 @@ PROPS = {
     "C03": dict(fam=["tandem", "route", "cls", "renege", "prio", "schedblock", "infblock", "preblock"],
                 mc=["tandem", "tri", "route", "cls", "jockey", "infblock"], inv=["Inv_C03"], step=["Step_C03"]),
     "C06": dict(fam=["core1", "tandem", "renege"], mc=["core1", "tandem", "jockey"], inv=["Inv_C06"], step=["Step_C06"]),
-    "C07": dict(fam=["tandem", "cls", "route", "preblock", "infblock", "overblock"], mc=["tandem", "tri", "cls", "infblock"], inv=["Inv_C07"], step=["Step_C07"]),
+    "C07": dict(fam=["tandem", "cls", "route", "preblock", "infblock", "overblock", "ppblock"], mc=["tandem", "tri", "cls", "infblock"], inv=["Inv_C07"], step=["Step_C07"]),
     "C10": dict(fam=["core1", "tandem", "prio", "renege", "fault", "jockey"], mc=["core1", "tandem", "prio", "jockey", "slotpre"],
                 inv=["Inv_C10"], step=["Step_C10"]),
     "C04": dict(fam=["tandem", "prio", "preempt", "sched", "schedpre", "core1", "schedblock", "preblock"],
@@ -45,11 +45,11 @@ PROPS = {
     "C18": dict(fam=["dead", "dead3"], mc=["dead"], inv=["Inv_C18"], step=["Step_C18"]),
     "C19": dict(fam=["ps", "psfifo"], mc=["ps"], inv=["Inv_C19"], step=["Step_C19"]),
     "C20": dict(fam=["exact", "eps"], mc=["exact"], inv=[], step=["Step_C20"]),
-    "C14": dict(fam=["stopcount", "core1", "tandem", "prio", "cls", "renege", "route", "preempt"],
+    "C14": dict(fam=["stopcount", "ppblock", "core1", "tandem", "prio", "cls", "renege", "route", "preempt"],
                 mc=["core1", "stopcount", "renegesched", "jsqsched"], inv=[], step=["Step_C14"]),
 }
 
-ALLFAM = ["mix", "mix", "mix", "ppccw", "eps", "slotren", "preblock", "overblock", "trkccw", "pause", "date0", "jsqsched", "dead3", "jockey", "slotpre", "renegesched", "schedblock", "infblock", "ppsched", "ps", "core1", "tandem", "prio", "preempt", "cls", "clsren", "renege", "route", "sched", "schedpre", "schedblock",
+ALLFAM = ["mix", "mix", "mix", "ppccw", "eps", "slotren", "preblock", "overblock", "trkccw", "ppblock", "pause", "date0", "jsqsched", "dead3", "jockey", "slotpre", "renegesched", "schedblock", "infblock", "ppsched", "ps", "core1", "tandem", "prio", "preempt", "cls", "clsren", "renege", "route", "sched", "schedpre", "schedblock",
           "slot", "ccw", "trk", "reroute", "stopcount"]
 
 # vacuity gates (DESIGN section 5): witness tags that the validated traces of a check must contain at least once,
